@@ -155,7 +155,8 @@ func New(op OpCode) Type {
 // srcAddr specifies the source address, or immediate value for instruction
 // encoded integers.
 func EncodeSrc(srcsel int, src uint64, srcAddr int) Type {
-	if srcAddr <= -(1<<SrcChanWidth) || srcAddr >= (1<<SrcChanWidth) {
+	// the operand is decoded as a SrcChanWidth bit two's complement number
+	if srcAddr < -(1<<(SrcChanWidth-1)) || srcAddr >= (1<<(SrcChanWidth-1)) {
 		panic("srcAddr out of range")
 	}
 	addr := uint64(srcAddr)
